@@ -317,6 +317,20 @@ Section InstanceCli.
     apply okn_double_split. split; [apply json_wf_to_json|].
     apply json_doubles_to_json. now apply svalue_doubles_sv_of.
   Qed.
+
+  (* ... and at the level of the bytes: the second run writes what the first run wrote *)
+  Theorem cli_text_out_echo_fixed_point_exact v name :
+    json_data v = true -> value_doubles v = true -> value_no_reserved pfs v = true ->
+    (jdepth (write_outputs [(name, sv_of v)]) <= 127)%nat ->
+    let out := xprint (write_outputs [(name, sv_of v)]) in
+    cli_text_echo pfs pbody emit nameof exact_pieces rn_float_of_tok out name name = Ok out.
+  Proof.
+    intros Hd Hv Hr Hdepth.
+    apply (cli_text_out_echo_fixed_point pfs pbody emit nameof exact_pieces rn_float_of_tok okf_double
+             okf_double_print okf_double_roundtrip okf_double_finite okf_double_fot okf_double_int); auto.
+    apply okn_double_split. split; [apply json_wf_to_json|].
+    apply json_doubles_to_json. now apply svalue_doubles_sv_of.
+  Qed.
 End InstanceCli.
 
 (* ------------------------------------------------------------------ examples *)
